@@ -227,3 +227,74 @@ def self_test():
     assert np.allclose(R_cc_batch([[10, 20, 30]])[0], R_cc(10, 20, 30))
     assert len(cube_rotations()) == 24
     return True
+
+
+# --------------------------------------------------------------------------------------------------
+# STAR subset tokenizer (line oriented; written from the format description, not from cryoCAT's reader)
+# --------------------------------------------------------------------------------------------------
+def star_tokenize(text):
+    """Blocks of the STAR subset of property C02.
+
+    Grammar (line oriented): blank lines and lines whose first non-blank character is '#' are ignorable wherever
+    they are permitted (before a block, after the labels, between blocks).  A block is: one line holding the block
+    name; ignorable lines; a line `loop_`; label lines `_name [#comment]` (one label per line); ignorable lines; then
+    row lines (whitespace separated tokens) up to the next ignorable line or the end of the text.
+    Returns a list of {"spec": str, "labels": [str], "label_comments": [str|None], "rows": [[str]]}.
+    Raises ValueError on text outside this subset (the harness then reports a generator bug, exit 2).
+    """
+    lines = text.replace("\r\n", "\n").split("\n")
+    blocks = []
+    state = "top"
+    cur = None
+    for ln, raw in enumerate(lines, 1):
+        stripped = raw.strip(" \t\r\f\v")
+        ignorable = stripped == "" or stripped.startswith("#")
+        if state == "top":
+            if ignorable:
+                continue
+            toks = stripped.split()
+            if len(toks) != 1 or "#" in stripped:
+                raise ValueError(f"line {ln}: expected a block name, got {raw!r}")
+            cur = {"spec": toks[0], "labels": [], "label_comments": [], "rows": []}
+            blocks.append(cur)
+            state = "want_loop"
+        elif state == "want_loop":
+            if ignorable:
+                continue
+            if stripped != "loop_":
+                raise ValueError(f"line {ln}: expected loop_, got {raw!r}")
+            state = "labels"
+        elif state == "labels":
+            if stripped.startswith("_"):
+                body, sep, com = stripped.partition("#")
+                name = body.split()
+                if len(name) != 1:
+                    raise ValueError(f"line {ln}: bad label line {raw!r}")
+                cur["labels"].append(name[0][1:])
+                cur["label_comments"].append(com.strip() if sep else None)
+            elif ignorable:
+                state = "after_labels"
+            else:
+                if not cur["labels"]:
+                    raise ValueError(f"line {ln}: loop without labels")
+                cur["rows"].append(stripped.split())
+                state = "rows"
+        elif state == "after_labels":
+            if ignorable:
+                continue
+            cur["rows"].append(stripped.split())
+            state = "rows"
+        elif state == "rows":
+            if ignorable:
+                state = "top"
+                continue
+            if "#" in stripped:
+                raise ValueError(f"line {ln}: comment on a data row is outside the subset")
+            cur["rows"].append(stripped.split())
+    if state == "want_loop":
+        raise ValueError("block name without loop_")
+    for b in blocks:
+        for r in b["rows"]:
+            if len(r) != len(b["labels"]):
+                raise ValueError(f"row with {len(r)} tokens for {len(b['labels'])} labels")
+    return blocks
